@@ -26,6 +26,7 @@ pub struct CodepointRange {
     pub end: Codepoint,
 }
 
+impl Default for Codepoints { #[verifier::external_body] fn default() -> Self { unimplemented!() } }
 #[derive(Clone, Copy, Debug, PartialEq, Eq)]
 pub enum Codepoints {
     Single(Codepoint),
@@ -51,3 +52,13 @@ pub fn vx_sorted_refs<'a>(codepoints: &'a HashSet<u32>) -> (vec: Vec<&'a u32>)
 
 pub assume_specification[ <Codepoint as PartialEq>::eq ](a: &Codepoint, b: &Codepoint) -> (r: bool)
     ensures r == (a.v() == b.v());
+
+// String equality is equality of contents; String::from(&str) keeps the contents (std, trusted)
+pub axiom fn string_facts()
+    ensures
+        <String as vstd::std_specs::cmp::PartialEqSpec<String>>::obeys_eq_spec(),
+        <String as vstd::std_specs::convert::FromSpec<&str>>::obeys_from_spec();
+pub broadcast axiom fn axiom_string_eq(a: &String, b: &String)
+    ensures #[trigger] <String as vstd::std_specs::cmp::PartialEqSpec<String>>::eq_spec(a, b) == (a@ == b@);
+pub broadcast axiom fn axiom_string_from_str(v: &str)
+    ensures (#[trigger] <String as vstd::std_specs::convert::FromSpec<&str>>::from_spec(v))@ == v@;
